@@ -4,31 +4,32 @@ existing suite (must pass), runs the demonstration (must FAIL), reverts the patc
 Confirmed ones are copied to /verif/seeded/<prop>-<m>/ with a meta.json."""
 import json, os, re, shutil, subprocess, sys
 ENV = dict(os.environ, GOFLAGS="-mod=mod", GOPROXY="off", GOSUMDB="off", GOTOOLCHAIN="local")
-WT = "/tmp/confirm/wt"
-OUT = "/tmp/confirm/results.json"
+MUT = os.environ.get("MUT_DIR", "/tmp/mut")
+WT = os.environ.get("CONFIRM_DIR", "/tmp/confirm") + "/wt"
+OUT = os.environ.get("CONFIRM_DIR", "/tmp/confirm") + "/results.json"
 
 def sh(cmd, cwd=None, timeout=1500):
     p = subprocess.run(cmd, shell=True, cwd=cwd, env=ENV, stdout=subprocess.PIPE, stderr=subprocess.STDOUT, text=True, timeout=timeout)
     return p.returncode, p.stdout
 
 def main():
-    os.makedirs("/tmp/confirm", exist_ok=True)
+    os.makedirs(os.path.dirname(OUT), exist_ok=True)
     results = json.load(open(OUT)) if os.path.exists(OUT) else {}
     sh("git -C /repo worktree remove --force %s; git -C /repo worktree prune" % WT)
     rc, o = sh("git -C /repo worktree add -q --detach %s HEAD" % WT)
     assert rc == 0, o
     todo = sys.argv[1:]
-    for d in sorted(os.listdir("/tmp/mut")):
+    for d in sorted(os.listdir(MUT)):
         if not d.endswith("-out"):
             continue
         prop = d[:-4]
-        for m in sorted(os.listdir("/tmp/mut/" + d)):
+        for m in sorted(os.listdir(MUT + "/" + d)):
             name = "%s-%s" % (prop, m)
             if todo and name not in todo and prop not in todo:
                 continue
             if name in results and results[name].get("done") and (results[name].get("ok") or "cannot parse" not in str(results[name].get("why"))):
                 continue
-            md = "/tmp/mut/%s/%s" % (d, m)
+            md = "%s/%s/%s" % (MUT, d, m)
             try:
                 meta = json.load(open(md + "/meta.json"))
             except Exception as e:
